@@ -147,6 +147,22 @@ fn offsets(n: i32, rng: &mut Rng, nrand: usize, out: &mut Vec<i64>) {
     out.dedup();
 }
 
+/// cases evaluated as the first library call of a fresh thread and (leg `cold`) of a fresh process
+pub fn cold_list() -> Vec<C> {
+    let mut v = vec![];
+    for d in [0i64, 1, -1, 30, 31, -31, MIN_DAY as i64, MAX_DAY as i64, 11_016, -17, 14] {
+        v.push(C::ab(K::DateLdom, d, 0));
+        v.push(C::ab(K::TsLdom, d * DAY_US + 1, 0));
+        v.push(C::ab(K::OraLdom, d * DAY_US, 0));
+        for k in [1i64, -1, 12, -12, 2, -2] {
+            v.push(C::ab(K::DateYm, d, k));
+            v.push(C::ab(K::TsYm, d * DAY_US + 43_200_000_000, k));
+            v.push(C::ab(K::OraYm, d * DAY_US, k));
+        }
+    }
+    v
+}
+
 pub fn run(ctx: &Ctx, st: &mut Stats) {
     cal();
     let stride = ctx.tier.pick(7919, ctx.q(11, 5), 1);
@@ -247,20 +263,7 @@ pub fn run(ctx: &Ctx, st: &mut Stats) {
         st.eval_hist(mix(a.hash(a.k as u64 + 9), b.hash(b.k as u64 + 11)), vec![a, b, a], check);
         let _ = i;
     });
-    cold_threads(st, "history: first call on a fresh thread", {
-        let mut v = vec![];
-        for d in [0i64, 1, -1, 30, 31, -31, MIN_DAY as i64, MAX_DAY as i64, 11_016, -17, 14] {
-            v.push(C::ab(K::DateLdom, d, 0));
-            v.push(C::ab(K::TsLdom, d * DAY_US + 1, 0));
-            v.push(C::ab(K::OraLdom, d * DAY_US, 0));
-            for k in [1i64, -1, 12, -12, 2, -2] {
-                v.push(C::ab(K::DateYm, d, k));
-                v.push(C::ab(K::TsYm, d * DAY_US + 43_200_000_000, k));
-                v.push(C::ab(K::OraYm, d * DAY_US, k));
-            }
-        }
-        v
-    }, check);
+    cold_threads(st, "history: first call on a fresh thread", cold_list(), check);
     // seeded random (timestamp, offset)
     let n = ctx.tier.pick(1_000, 1_000_000, ctx.big(20_000_000, 200_000_000));
     ctx.par(st, "random/timestamp x offset", false, 0, n, |st, _, rng| {
